@@ -113,6 +113,8 @@ func (c *BConn) readLoop() {
 		c.cond.Broadcast()
 		c.mu.Unlock()
 		if err != nil {
+			// the peer is gone: release the descriptor (long runs accept 100 000s of connections)
+			c.C.Close()
 			return
 		}
 	}
